@@ -1,0 +1,23 @@
+//go:build verif
+
+package kit
+
+// Contracts for govc (/verif). Comment-only file: invisible without -tags verif.
+
+//@ inlinepkg github.com/jsightapi/jsight-schema-core/bytes
+//@ inlinepkg github.com/jsightapi/jsight-schema-core/fs
+
+// readPanicFree recovers the panic of reader.Read (the one fixed recover idiom of the module): assumed contract
+//@ func readPanicFree(filename)
+//@   attr trusted
+//@   modifies nothing
+//@   ensures imp(result1 == nil, result0 != nil)
+// building from a file: everything below is under contract only down to the scanning phase (see C01 in MANIFEST)
+//@ func NewJApiFromFile(file, oo)
+//@   attr trusted
+//@   requires[C01,@root-file] file != nil
+//@   modifies anything
+
+//@ func NewJapi(filepath, oo)
+//@   property C01,C07
+//@   modifies anything
